@@ -220,12 +220,14 @@ fn dem_at(desc: &Value, k: usize) -> i64 {
     }
 }
 
-fn loco_step(l: &mut Locomotive, e8: i64, dt: f64) -> anyhow::Result<()> {
+/// `boost` > 1 asks for more than the published (transient) maximum: only a unit with
+/// assert_limits = false tolerates that
+fn loco_step(l: &mut Locomotive, e8: i64, dt: f64, boost: f64) -> anyhow::Result<()> {
     let dt = uc::S * dt;
     l.set_pwr_aux(Some(true));
     l.set_cur_pwr_max_out(None, dt)?;
     let req = if e8 >= 0 {
-        l.state.pwr_out_max * (e8 as f64 / 8.0)
+        l.state.pwr_out_max * (e8 as f64 / 8.0) * boost
     } else {
         l.state.pwr_regen_max * (e8 as f64 / 8.0)
     };
@@ -249,6 +251,28 @@ fn consist_step(c: &mut Consist, e8: i64, dt: f64) -> anyhow::Result<()> {
     Ok(())
 }
 
+fn getter<T: serde::Serialize>(r: anyhow::Result<T>) -> Node {
+    match r {
+        Ok(v) => tree(&v),
+        Err(e) => Node::S(errtxt(&e)),
+    }
+}
+fn loco_getters(l: &Locomotive) -> Node {
+    Node::Seq(vec![
+        getter(l.force_max().map(|f| f.value)),
+        getter(l.mu().map(|m| m.map(|x| x.value))),
+        getter(l.mass().map(|m| m.map(|x| x.value))),
+        Node::B(l.assert_limits),
+    ])
+}
+fn consist_getters(c: &Consist) -> Node {
+    Node::Seq(vec![
+        getter(c.force_max().map(|f| f.value)),
+        getter(c.mass().map(|m| m.map(|x| x.value))),
+        Node::Seq(c.loco_vec.iter().map(loco_getters).collect()),
+    ])
+}
+
 impl Subj {
     /// One simulation step (static types: nothing happens here, the *use* is evaluated by `obs`).
     fn step(&mut self, k: usize, desc: &Value) -> anyhow::Result<()> {
@@ -256,7 +280,13 @@ impl Subj {
         // an Err may leave the object half-updated: continue from the state before the call
         let save = self.clone();
         let r = match self {
-            Subj::Comp(l, _) | Subj::Loco(l) => loco_step(l, dem_at(desc, k), dt),
+            Subj::Comp(l, _) | Subj::Loco(l) => {
+                let relaxed = desc["kind"].as_str().map(|k| k.ends_with(".relaxed")).unwrap_or(false);
+                // every second positive demand of a relaxed unit lies 25 % above the published maximum
+                let e8 = dem_at(desc, k);
+                let boost = if relaxed && k % 2 == 1 { 10.0 / e8.max(1) as f64 } else { 1.0 };
+                loco_step(l, e8, dt, boost)
+            }
             Subj::Con(c) => consist_step(c, dem_at(desc, k), dt),
             Subj::LocoSim(s) => s.step(),
             Subj::LocoSimVec(v) => v.0.iter_mut().try_for_each(|s| s.step()),
@@ -315,13 +345,14 @@ impl Subj {
     fn obs(&self) -> Node {
         let p = |n: Node| proj(&n).unwrap_or(Node::Null);
         match self {
-            Subj::Comp(l, _) | Subj::Loco(l) => p(tree(l)),
-            Subj::Con(x) => p(tree(x)),
+            // public getters next to the state projection: traction limit, adhesion, mass
+            Subj::Comp(l, _) | Subj::Loco(l) => Node::Seq(vec![p(tree(l)), loco_getters(l)]),
+            Subj::Con(x) => Node::Seq(vec![p(tree(x)), consist_getters(x)]),
             Subj::LocoSim(x) => p(tree(x)),
             Subj::LocoSimVec(x) => p(tree(x)),
             Subj::ConSim(x) => p(tree(x)),
-            Subj::Sss(x) => p(tree(x)),
-            Subj::Slts(x) => p(tree(x.as_ref())),
+            Subj::Sss(x) => Node::Seq(vec![p(tree(x)), consist_getters(&x.loco_con)]),
+            Subj::Slts(x) => Node::Seq(vec![p(tree(x.as_ref())), consist_getters(&x.loco_con)]),
             // the public getters expose what the serialisation may not (is_finished, extent)
             Subj::Tpc(x, _) | Subj::TpcFin(x) => Node::Seq(vec![
                 tree(x),
@@ -565,6 +596,43 @@ fn build_subject_uncached(desc: &Value) -> anyhow::Result<Subj> {
         "ReversibleEnergyStorage" => Subj::Comp(bel(&mut lp)?, Comp::Res),
         "Locomotive.conv" => Subj::Loco(conv(&mut lp)?),
         "Locomotive.bel" => Subj::Loco(bel(&mut lp)?),
+        "Locomotive.relaxed" => {
+            // advertised non-default setting: demands above the transient limit are tolerated
+            let mut l = conv(&mut lp)?;
+            l.assert_limits = false;
+            Subj::Loco(l)
+        }
+        "Locomotive.mu" => {
+            // adhesion coefficient known, set through the documented route mu = force_max / (mass g): for 350 kN on
+            // the default 195 t unit mu*mass*g equals force_max only within the accepted tolerance, not bit for bit
+            let mut l = Locomotive::default();
+            l.set_force_max(
+                uc::N * p.get("force_max").and_then(|x| x.as_f64()).unwrap_or(350.0e3),
+                altrios_core::consist::locomotive::ForceMaxSideEffect::UpdateMu,
+            )?;
+            l.set_save_interval(Some(1));
+            Subj::Loco(l)
+        }
+        "LocomotiveSimulation.relaxed" => {
+            // default Tier-4 unit, assert_limits = false, load steps steeper than the engine ramp
+            let mut l = Locomotive::default();
+            l.assert_limits = false;
+            const HEAD: [f64; 10] = [0.0, 3.0e5, 1.5e6, 1.6e6, 1.7e6, 1.8e6, 1.9e6, 2.0e6, 2.0e6, 2.0e6];
+            const TAIL: [f64; 3] = [3.0e5, 2.0e6, 1.8e6];
+            let pw: Vec<f64> = (0..=nmax).map(|k| if k < 10 { HEAD[k] } else { TAIL[(k - 10) % 3] }).collect();
+            let pt = PowerTrace::new((0..=nmax).map(|k| k as f64).collect(), pw, vec![Some(true); nmax + 1]);
+            Subj::LocoSim(LocomotiveSimulation::new(l, pt, Some(1)))
+        }
+        "SpeedLimitTrainSim.mu" => {
+            // heavy train leaving standstill behind four units with known mu: traction-FORCE limited start
+            use altrios_core::validate::Valid;
+            let mut l = Locomotive::default();
+            l.set_force_max(uc::N * 350.0e3, altrios_core::consist::locomotive::ForceMaxSideEffect::UpdateMu)?;
+            let mut s = SpeedLimitTrainSim::valid();
+            s.loco_con = Consist::new(vec![l; 4], Some(1), Default::default());
+            s.set_save_interval(Some(1));
+            Subj::Slts(Box::new(s))
+        }
         "Locomotive.hybrid" => {
             let mut l = Locomotive::default_hybrid_electric_loco();
             l.set_save_interval(Some(1));
@@ -770,7 +838,8 @@ fn exec(desc: &Value, tr: &mut Tracer) -> anyhow::Result<()> {
 // ---------------------------------------------------------------------------------------------
 // generator: pinned (kind x format) cases through files, realistic-scale cases, long random schedules
 
-const DEEP: [&str; 14] = [
+const DEEP: [&str; 15] = [
+    "Locomotive.relaxed",
     "FuelConverter",
     "Generator",
     "ElectricDrivetrain",
@@ -786,7 +855,10 @@ const DEEP: [&str; 14] = [
     "ElectricDrivetrain.bel",
     "LocomotiveSimulation.bel",
 ];
-const SHALLOW: [&str; 14] = [
+const SHALLOW: [&str; 17] = [
+    "Locomotive.mu",
+    "LocomotiveSimulation.relaxed",
+    "SpeedLimitTrainSim.mu",
     "TrainSimBuilder.nan",
     "PowerTrace",
     "SpeedTrace",
@@ -802,7 +874,10 @@ const SHALLOW: [&str; 14] = [
     "TimedLinkPath",
     "SetSpeedTrainSim.default",
 ];
-const REAL: [&str; 16] = [
+const REAL: [&str; 19] = [
+    "Locomotive.mu",
+    "LocomotiveSimulation.relaxed",
+    "SpeedLimitTrainSim.mu",
     "FuelConverter",
     "Generator",
     "ElectricDrivetrain",
